@@ -235,3 +235,448 @@ Section Post.
         transitivity ((O r * A) * sumR (map f (seq 0 (r + 1)))); [ring|].
         rewrite <- sumR_scale_l. apply sumR_map_ext. intros j _. unfold f, A. ring. Qed.
 End Post.
+
+(** ** (B) the code's outside values along the path to a node *)
+Lemma Rinv_nonneg x : 0 <= x -> 0 <= / x.
+Proof. intros [H| <-]; [left; now apply Rinv_0_lt_compat|rewrite Rinv_0; lra]. Qed.
+
+Lemma npmax_nonneg (l : list R) : (forall x, In x l -> 0 <= x) -> 0 <= npmax LinR l.
+Proof. intro H. destruct l as [|x r]; [cbn; lra|]. apply H. apply npmax_In. discriminate. Qed.
+
+Lemma list_as_map (l : list R) n : length l = n -> l = map (fun k => nth k l 0) (seq 0 n).
+Proof. intro H. apply (nth_ext _ _ 0 0); [now rewrite map_length, seq_length|].
+  intros k Hk. rewrite nth_map_seq by lia. reflexivity. Qed.
+
+Section Code.
+  Variable G : nat.
+  Variable lik : nat -> nat -> nat -> R.
+  Variable sfrac : nat -> R.
+  Variable fixed : nat -> bool.
+  Variable priorv : nat -> list R.
+  Hypothesis lik_nonneg : forall e i j, 0 <= lik e i j.
+  Hypothesis prior_nonneg : forall u x, In x (priorv u) -> 0 <= x.
+  Hypothesis sfrac_one : forall e, sfrac e = 1.
+
+  Variable st : istate LinR.
+  Variable std : bool.
+  Variable num_nodes : nat.
+  Variable out : nat -> option (list R).
+
+  Notation U := (U lik priorv).
+  Notation M := (M lik priorv).
+  Notation Kof := (Kof (i_den LinR st)).
+  Notation inside_at := (inside_at G lik priorv (i_ins LinR st) (i_den LinR st)).
+
+  Lemma out_edges_single val0 e val :
+    out_edges LinR G lik sfrac fixed st false std false num_nodes out val0 [e] = Some val ->
+    fixed (e_parent e) = false /\ exists m, out_edge LinR G lik sfrac st false std out e = Some m /\ val = vcomb LinR val0 m.
+  Proof. cbn [out_edges andb]. destruct (fixed (e_parent e)); [discriminate|].
+    destruct (out_edge LinR G lik sfrac st false std out e) as [m|]; [|discriminate].
+    intro H. inversion H. eauto. Qed.
+
+  (** the code's "inside / g_i" factor for the edge from [t] down to its child [c] *)
+  Definition Dfac (t c : tree) (d : R) (r : nat) : R :=
+    ratio0 LinR (U t r / Kof t) (M c r / Kof c / d).
+
+  Lemma Dfac_nonneg t c d r : 0 < Kof t -> 0 < Kof c -> 0 < d -> 0 <= Dfac t c d r.
+  Proof. intros Ht Hc Hd. unfold Dfac, ratio0. rewrite LinR_isnan. cbn [s_ratio LinR LinSpace div RNum].
+    unfold Rdiv. apply Rmult_le_pos.
+    - apply Rmult_le_pos; [now apply U_nonneg|apply Rinv_nonneg; lra].
+    - apply Rinv_nonneg. repeat apply Rmult_le_pos; try (apply Rinv_nonneg; lra). now apply M_nonneg. Qed.
+
+  (** get_inside on the inside values of an internal node *)
+  Lemma get_inside_node e' u' cs' : inside_at (Node e' u' cs') ->
+    get_inside LinR G lik (map (s_geom LinR (sfrac e')) (make_lower_tri LinR G
+        (map (fun i => U (Node e' u' cs') i / Kof (Node e' u' cs')) (seq 0 G)))) e'
+    = map (fun r => M (Node e' u' cs') r / Kof (Node e' u' cs')) (seq 0 G).
+  Proof. intros (HK & _). rewrite (get_inside_spec LinR G lik (s_geom LinR (sfrac e'))).
+    apply map_ext_in. intros i Hi. apply in_seq in Hi.
+    cbn [s_rsum LinR LinSpace]. rewrite lin_rsum_sumR. rewrite M_node.
+    unfold Rdiv. rewrite <- sumR_map_scale with (k := / Kof (Node e' u' cs')).
+    apply sumR_map_ext. intros j Hj. apply in_seq in Hj.
+    cbn [s_geom s_comb s_id s_null LinR LinSpace one mul zero RNum].
+    rewrite (nth_map_seq (fun i0 => U (Node e' u' cs') i0 * / Kof (Node e' u' cs'))) by lia. cbn [Nat.add].
+    rewrite sfrac_one, Rpowf_1.
+    - lra.
+    - apply Rmult_le_pos; [now apply U_nonneg|]. left. now apply Rinv_0_lt_compat. Qed.
+
+  Lemma repeat_as_map (x : R) n : repeat x n = map (fun _ => x) (seq 0 n).
+  Proof. apply (nth_ext _ _ 0 0); [now rewrite repeat_length, map_length, seq_length|].
+    intros k Hk. rewrite repeat_length in Hk. rewrite nth_map_seq by lia.
+    rewrite (nth_indep _ 0 x) by (now rewrite repeat_length). apply nth_repeat. Qed.
+
+  Lemma out_finish (F : nat -> R) a1 dd :
+    vratio LinR (vcomb LinR (repeat 1 G) (map (fun j => a1 * F j) (seq 0 G))) dd
+    = map (fun j => (a1 * / dd) * F j) (seq 0 G).
+  Proof. rewrite repeat_as_map, vcomb_maps. unfold vratio. rewrite map_map. apply map_ext. intro j.
+    cbn [s_ratio LinR LinSpace div RNum]. unfold Rdiv. ring. Qed.
+
+  Lemma out_step_values e u cs e' u' cs' opv :
+    let t := Node e u cs in let c := Node e' u' cs' in
+    inside_at t -> inside_at c -> fixed u' = false ->
+    out u = Some opv -> length opv = G -> (forall r, (r < G)%nat -> 0 <= nth r opv 0) ->
+    group_out_eq LinR G lik sfrac fixed st false std false num_nodes out (u', [(e', u, u')]) ->
+    exists d a, 0 < d /\ 0 <= a /\ i_den LinR st u' = Some d /\
+      out u' = Some (map (fun j => a * sumR (map (fun r => nth r opv 0 * Dfac t c d r * lik e' r j) (seq j (G - j))))
+                         (seq 0 G)).
+  Proof. intros t c Hit Hic Hfx Hop Hlen Hnn Heq.
+    destruct (Heq Hfx) as (val & d & Hval & Hd & Hok & Hout). cbn [fst snd] in *.
+    assert (Hdpos : 0 < d).
+    { apply orb_false_elim in Hok. destruct Hok as (Hle & _). now apply LinR_leb_false in Hle. }
+    destruct (out_edges_single _ _ _ Hval) as (Hfu & m & Hm & ->).
+    destruct Hit as (HKt & Hit). destruct Hic as (HKc & Hic). fold t in HKt, Hit. fold c in HKc, Hic.
+    unfold out_edge, g_i in Hm. cbn [e_parent e_child e_id fst snd] in Hm.
+    rewrite Hit, Hop, Hd, Hic in Hm.
+    pose proof (get_inside_node e' u' cs' (conj HKc Hic)) as Hgi. fold c in Hgi. rewrite Hgi in Hm. clear Hgi.
+    (* w = outside[parent] * inside[parent] / g_i *)
+    set (w := map (fun r => nth r opv 0 * Dfac t c d r) (seq 0 G)).
+    assert (Hw : vcomb LinR opv (vratio0 LinR (map (fun i => U t i / Kof t) (seq 0 G))
+                                   (vratio LinR (map (fun r => M c r / Kof c) (seq 0 G)) d)) = w).
+    { unfold vratio0, vratio. rewrite map_map, combine_map_map, map_map.
+      rewrite (list_as_map opv G Hlen) at 1. rewrite vcomb_maps. reflexivity. }
+    rewrite Hw in Hm.
+    assert (Hwnn : forall k, 0 <= nth k w 0).
+    { intro k. destruct (Nat.lt_ge_cases k G) as [Hk|Hk].
+      - unfold w. rewrite nth_map_seq by exact Hk. cbn [Nat.add].
+        apply Rmult_le_pos; [now apply Hnn|now apply Dfac_nonneg].
+      - rewrite nth_overflow; [lra|]. unfold w. now rewrite map_length, seq_length. }
+    set (pv := map (s_geom LinR (sfrac e')) (make_upper_tri LinR G w)) in Hm.
+    set (mx := npmax LinR pv) in Hm.
+    set (a1 := if std then / mx else 1).
+    assert (Ha1 : 0 <= a1).
+    { unfold a1. destruct std; [|lra]. apply Rinv_nonneg. unfold mx. apply npmax_nonneg. intros x Hx. unfold pv in Hx.
+      apply in_map_iff in Hx. destruct Hx as (y & <- & Hy). unfold make_upper_tri, take in Hy.
+      apply in_map_iff in Hy. destruct Hy as (k & <- & _). cbn [s_geom s_null LinR LinSpace zero RNum].
+      rewrite sfrac_one, Rpowf_1 by apply Hwnn. apply Hwnn. }
+    assert (Hmval : m = map (fun j => a1 * sumR (map (fun r => nth r opv 0 * Dfac t c d r * lik e' r j) (seq j (G - j)))) (seq 0 G)).
+    { assert (Hgo : forall h : R -> R, (forall x, 0 <= x -> h x = x * a1) ->
+                get_outside LinR G lik (map h (make_upper_tri LinR G w)) e'
+                = map (fun j => a1 * sumR (map (fun r => nth r opv 0 * Dfac t c d r * lik e' r j) (seq j (G - j)))) (seq 0 G)).
+      { intros h Hh. rewrite (get_outside_spec LinR G lik h). apply map_ext_in. intros j Hj. apply in_seq in Hj.
+        cbn [s_rsum LinR LinSpace]. rewrite lin_rsum_sumR. rewrite <- sumR_scale_l. apply sumR_map_ext.
+        intros r Hr. apply in_seq in Hr. cbn [s_comb s_id s_null LinR LinSpace one mul zero RNum].
+        rewrite Hh by apply Hwnn. unfold w. rewrite nth_map_seq by lia. cbn [Nat.add]. ring. }
+      destruct std; inversion Hm as [Hm']; clear Hm.
+      - unfold pv, vratio. rewrite map_map. apply Hgo. intros x Hx. cbn [s_geom s_ratio LinR LinSpace div RNum].
+        rewrite sfrac_one, Rpowf_1 by exact Hx. unfold a1, Rdiv. reflexivity.
+      - unfold pv. apply Hgo. intros x Hx. cbn [s_geom LinR LinSpace]. rewrite sfrac_one, Rpowf_1 by exact Hx. unfold a1. ring. }
+    subst m. change (s_id LinR) with 1 in Hout.
+    set (dd := if std then npmax LinR (vcomb LinR (repeat 1 G) (map (fun j => a1 * sumR (map (fun r => nth r opv 0 * Dfac t c d r * lik e' r j) (seq j (G - j)))) (seq 0 G))) else d).
+    exists d, (a1 * / dd). split; [exact Hdpos|]. split; [|split; [exact Hd|]].
+    - apply Rmult_le_pos; [exact Ha1|]. apply Rinv_nonneg. unfold dd. destruct std; [|lra].
+      apply npmax_nonneg. intros x Hx. rewrite repeat_as_map, vcomb_maps in Hx. apply in_map_iff in Hx.
+      destruct Hx as (j & <- & Hj). apply in_seq in Hj. apply Rmult_le_pos; [lra|]. apply Rmult_le_pos; [exact Ha1|].
+      apply sumR_nonneg. intros y Hy. apply in_map_iff in Hy. destruct Hy as (r & <- & Hr). apply in_seq in Hr.
+      apply Rmult_le_pos; [|apply lik_nonneg]. apply Rmult_le_pos; [apply Hnn; lia|now apply Dfac_nonneg].
+    - rewrite Hout. unfold dd. destruct std; rewrite out_finish; reflexivity. Qed.
+
+  (** the algebraic heart: the invariant "outside x U = kappa x O x U" passes from a node to its child;
+      where the child's message is 0 both sides vanish (the code's 0/0 := 0 is harmless) *)
+  Lemma out_step_invariant e u b a e' u' cs' opv kappa O d av :
+    let c := Node e' u' cs' in let t := Node e u (b ++ c :: a) in
+    0 < Kof t -> 0 < Kof c -> 0 < d ->
+    (forall r, (r < G)%nat -> nth r opv 0 * U t r = kappa * O r * U t r) ->
+    forall j, (j < G)%nat ->
+      (av * sumR (map (fun r => nth r opv 0 * Dfac t c d r * lik e' r j) (seq j (G - j)))) * U c j
+      = (av * (Kof c * d / Kof t) * kappa) * Odown G lik priorv u O (b ++ a) c j * U c j.
+  Proof. intros c t HKt HKc Hd Hinv j Hj. unfold Odown. change (t_eid c) with e'.
+    set (gam := Kof c * d / Kof t).
+    transitivity (av * sumR (map (fun r => (nth r opv 0 * Dfac t c d r * lik e' r j) * U c j) (seq j (G - j)))).
+    { rewrite sumR_map_scale. ring. }
+    transitivity (av * sumR (map (fun r => (gam * kappa) * ((O r * pr priorv u r * prodR (map (fun s => M s r) (b ++ a)) * lik e' r j) * U c j))
+                                 (seq j (G - j)))).
+    2:{ rewrite sumR_scale_l, sumR_map_scale. ring. }
+    f_equal. apply sumR_map_ext. intros r Hr. apply in_seq in Hr.
+    set (Pr := pr priorv u r * prodR (map (fun s => M s r) (b ++ a))).
+    assert (HUt : U t r = Pr * M c r).
+    { unfold t. rewrite U_node. rewrite !map_app, !prodR_app. cbn [map]. unfold prodR at 2. cbn [fold_right].
+      fold (prodR (map (fun c0 => M c0 r) a)). unfold Pr. rewrite map_app, prodR_app. ring. }
+    destruct (Req_EM_T (M c r) 0) as [Hz|Hnz].
+    - (* zero message: both sides vanish *)
+      assert (Hterm : U c j * lik e' r j = 0).
+      { unfold c in Hz. rewrite M_node in Hz. fold c in Hz.
+        apply (sumR_nonneg_zero (fun j0 => U c j0 * lik e' r j0) (seq 0 (r + 1))); [|exact Hz|apply in_seq; lia].
+        intros x _. apply Rmult_le_pos; [now apply U_nonneg|apply lik_nonneg]. }
+      assert (HD : Dfac t c d r = 0).
+      { unfold Dfac, ratio0. rewrite LinR_isnan. cbn [s_ratio LinR LinSpace div RNum]. rewrite HUt, Hz. unfold Rdiv. ring. }
+      rewrite HD. transitivity (gam * kappa * (O r * Pr) * (U c j * lik e' r j)); [rewrite Hterm; ring|unfold Pr; ring].
+    - assert (HD : Dfac t c d r = gam * Pr).
+      { unfold Dfac, ratio0. rewrite LinR_isnan. cbn [s_ratio LinR LinSpace div RNum]. rewrite HUt. unfold gam.
+        field. repeat split; lra. }
+      assert (Hop : nth r opv 0 * Pr = kappa * O r * Pr).
+      { apply (Rmult_eq_reg_r (M c r)); [|exact Hnz].
+        replace (nth r opv 0 * Pr * M c r) with (nth r opv 0 * U t r) by (rewrite HUt; ring).
+        rewrite Hinv by lia. rewrite HUt. ring. }
+      rewrite HD. transitivity (gam * (nth r opv 0 * Pr) * lik e' r j * U c j); [ring|]. rewrite Hop. unfold Pr. ring. Qed.
+
+  (** ** the path induction *)
+  Variable gso : list (nat * list edge).
+  Hypothesis out_eqs : forall g, In g gso ->
+    group_out_eq LinR G lik sfrac fixed st false std false num_nodes out g.
+
+  (** every internal node is non-fixed and carries the inside values [U / Kof]; every non-root
+      internal node has exactly one parent edge, and that is its group in the outside order *)
+  Fixpoint good (t : tree) : Prop :=
+    match t with
+    | Leaf _ _ => True
+    | Node _ u cs =>
+        fixed u = false /\ inside_at t /\
+        (fix all (l : list tree) : Prop :=
+           match l with
+           | [] => True
+           | c :: r => (match c with Leaf _ _ => True | Node e' u' _ => In (u', [(e', u, u')]) gso end /\ good c) /\ all r
+           end) cs
+    end.
+
+  Lemma good_children u cs :
+    (fix all (l : list tree) : Prop :=
+       match l with
+       | [] => True
+       | c :: r => (match c with Leaf _ _ => True | Node e' u' _ => In (u', [(e', u, u')]) gso end /\ good c) /\ all r
+       end) cs ->
+    forall c, In c cs -> (match c with Leaf _ _ => True | Node e' u' _ => In (u', [(e', u, u')]) gso end) /\ good c.
+  Proof. induction cs as [|x r IH]; intros H c []; [subst; apply H|apply IH; [apply H|assumption]]. Qed.
+
+  Theorem outside_path : forall t O kappa opv v s Ov,
+    good t ->
+    out (t_id t) = Some opv -> length opv = G -> (forall r, (r < G)%nat -> 0 <= nth r opv 0) ->
+    (forall r, (r < G)%nat -> nth r opv 0 * U t r = kappa * O r * U t r) ->
+    find_sub G lik priorv t O v = Some (s, Ov) ->
+    good s /\ exists kappa' ovv, out v = Some ovv /\ length ovv = G /\
+      forall j, (j < G)%nat -> nth j ovv 0 * U s j = kappa' * Ov j * U s j.
+  Proof. induction t as [e u|e u cs IH] using tree_ind'; intros O kappa opv v s Ov Hgood Hop Hlen Hnn Hinv Hf;
+      cbn [find_sub] in Hf; [discriminate|]. cbn [t_id] in Hop.
+    destruct (Nat.eqb_spec u v) as [->|Hne].
+    - inversion Hf; subst s Ov. split; [exact Hgood|]. exists kappa, opv. auto.
+    - destruct (first_child_spec _ _ _ _ Hf) as (b & c & a & Hsplit & Hfc). cbn [app] in Hsplit. subst cs.
+      destruct (find_sub_in G lik priorv c _ v s Ov Hfc) as (_ & _ & _).
+      destruct c as [e' u'|e' u' cs']; [cbn [find_sub] in Hfc; discriminate|].
+      cbn [good] in Hgood. destruct Hgood as (Hfu & Hit & Hall).
+      assert (Hcin : In (Node e' u' cs') (b ++ Node e' u' cs' :: a)) by (apply in_or_app; right; now left).
+      destruct (good_children u _ Hall _ Hcin) as (Hg & Hgc).
+      assert (Hic : inside_at (Node e' u' cs')) by (cbn [good] in Hgc; apply Hgc).
+      assert (Hfc' : fixed u' = false) by (cbn [good] in Hgc; apply Hgc).
+      destruct (out_step_values e u (b ++ Node e' u' cs' :: a) e' u' cs' opv Hit Hic Hfc' Hop Hlen Hnn (out_eqs _ Hg))
+        as (d & av & Hd & Hav & _ & Hout').
+      rewrite Forall_forall in IH.
+      match type of Hout' with out u' = Some ?l => set (opv' := l) in * end.
+      apply (IH _ Hcin (Odown G lik priorv u O (b ++ a) (Node e' u' cs')) (av * (Kof (Node e' u' cs') * d / Kof (Node e u (b ++ Node e' u' cs' :: a))) * kappa) opv' v s Ov Hgc); unfold opv'.
+      + cbn [t_id]. exact Hout'.
+      + now rewrite map_length, seq_length.
+      + intros r Hr. rewrite nth_map_seq by exact Hr. cbn [Nat.add]. apply Rmult_le_pos; [exact Hav|].
+        apply sumR_nonneg. intros y Hy. apply in_map_iff in Hy. destruct Hy as (q & <- & Hq). apply in_seq in Hq.
+        apply Rmult_le_pos; [|apply lik_nonneg]. apply Rmult_le_pos; [apply Hnn; lia|].
+        apply Dfac_nonneg; [apply Hit|apply Hic|exact Hd].
+      + intros j Hj. rewrite nth_map_seq by exact Hj. cbn [Nat.add].
+        apply (out_step_invariant e u b a e' u' cs' opv kappa O d av); try assumption; [apply Hit|apply Hic].
+      + exact Hfc. Qed.
+End Code.
+
+(** [find_sub] finds every internal node *)
+Lemma first_child_some {A} (f : list tree -> tree -> option A) : forall after before,
+  (exists c, In c after /\ forall sibs, f sibs c <> None) -> first_child f before after <> None.
+Proof. induction after as [|x rest IH]; intros before (c & Hc & Hf); [destruct Hc|]. cbn [first_child].
+  destruct (f (before ++ rest) x) eqn:E; [discriminate|]. destruct Hc as [->|Hc]; [now apply Hf in E|].
+  apply IH. eauto. Qed.
+
+Lemma find_sub_total G lik priorv : forall t O v, In v (inodes t) -> find_sub G lik priorv t O v <> None.
+Proof. induction t as [e u|e u cs IH] using tree_ind'; intros O v Hv; [destruct Hv|]. cbn [find_sub].
+  destruct (Nat.eqb_spec u v); [discriminate|]. cbn [inodes] in Hv. destruct Hv as [->|Hv]; [congruence|].
+  apply in_flat_map in Hv. destruct Hv as (c & Hc & Hvc). apply first_child_some. exists c. split; [exact Hc|].
+  intro sibs. rewrite Forall_forall in IH. now apply IH. Qed.
+
+Section Final.
+  Variable G : nat.
+  Variable lik : nat -> nat -> nat -> R.
+  Variable sfrac : nat -> R.
+  Variable fixed : nat -> bool.
+  Variable priorv : nat -> list R.
+  Hypothesis lik_nonneg : forall e i j, 0 <= lik e i j.
+  Hypothesis prior_nonneg : forall u x, In x (priorv u) -> 0 <= x.
+  Hypothesis sfrac_one : forall e, sfrac e = 1.
+  Variable gs gso : list (nat * list edge).
+
+  (** every non-root internal node has exactly one parent edge, which is its group in the outside order *)
+  Fixpoint out_ok (t : tree) : Prop :=
+    match t with
+    | Leaf _ _ => True
+    | Node _ u cs =>
+        (fix all (l : list tree) : Prop :=
+           match l with
+           | [] => True
+           | c :: r => (match c with Leaf _ _ => True | Node e' u' _ => In (u', [(e', u, u')]) gso end /\ out_ok c) /\ all r
+           end) cs
+    end.
+
+  Lemma good_of st :
+    (forall g, In g gs -> group_eq LinR G lik sfrac fixed priorv true (i_ins LinR st) (i_den LinR st) g) ->
+    forall t, tree_ok G fixed priorv gs t -> all_pos G lik priorv t -> out_ok t ->
+    good G lik fixed priorv st gso t.
+  Proof. intros Heqs. induction t as [e u|e u cs IH] using tree_ind'; intros Hok Hpos Hout; [exact I|].
+    cbn [good]. split; [apply Hok|]. split.
+    - apply (inside_tree G lik sfrac fixed priorv lik_nonneg prior_nonneg sfrac_one gs _ _ Heqs _ Hok Hpos).
+    - cbn [tree_ok] in Hok. destruct Hok as (_ & _ & _ & Hoks). cbn [all_pos] in Hpos. destruct Hpos as (_ & Hposs).
+      cbn [out_ok] in Hout. clear -IH Hoks Hposs Hout. induction cs as [|c r IHr]; [exact I|].
+      inversion IH; subst. destruct Hoks as (Hc & Hr). destruct Hposs as (Hpc & Hpr). destruct Hout as ((Hg & Hoc) & Hor).
+      split; [split; [exact Hg|now apply H1]|now apply IHr]. Qed.
+End Final.
+
+(** ** C10: the posterior of EVERY internal node against brute force *)
+Theorem posterior_exact : forall (G : nat) lik sfrac fixed priorv es es_out nonfixed std num_nodes root e cs st m out v,
+  (forall e i j, 0 <= lik e i j) -> (forall u x, In x (priorv u) -> 0 <= x) -> (forall e, sfrac e = 1) ->
+  let gs := groupby e_parent es in
+  let gso := groupby e_child es_out in
+  let t := Node e root cs in
+  inside_order fixed [] gs ->
+  inside_pass LinR G lik sfrac fixed priorv true es [(root, 1)] = Some (st, m) ->
+  tree_ok G fixed priorv gs t -> all_pos G lik priorv t ->
+  outside_order (map fst gso) [] gso -> ~ In root (map fst gso) -> In root nonfixed ->
+  outside_pass LinR G lik sfrac fixed st false std false num_nodes 0 es_out [(root, 1)] nonfixed = Some out ->
+  out_ok gso t -> NoDup (inodes t) -> In v (inodes t) ->
+  exists vec kappa, posterior_grid LinR st out v = Some vec /\ length vec = G /\
+    forall i, (i < G)%nat ->
+      nth i vec 0 = kappa * sumR (map (wt lik (restrict priorv v i) t) (labelings G t)).
+Proof. intros G lik sfrac fixed priorv es es_out nonfixed std num_nodes root e cs st m out v
+    Hlik Hpr Hsf gs gso t Hord Hrun Hok Hpos Hoo Hnc Hnf Hout Hook Hnd Hv.
+  unfold inside_pass in Hrun. fold gs in Hrun.
+  destruct (inside_groups LinR G lik sfrac fixed priorv true (istate0 LinR) gs) as [st0|] eqn:Hg; [|discriminate].
+  destruct (inside_groups_spec LinR G lik sfrac fixed priorv true gs [] _ _ Hord Hg) as (_ & Heqs & _).
+  assert (Est : st = st0). { destruct (marg_roots LinR (i_ins LinR st0) (i_marg LinR st0) [(root, 1)]); [|discriminate]. congruence. }
+  subst st0. clear Hrun.
+  unfold outside_pass in Hout. fold gso in Hout.
+  destruct (out_groups_spec LinR G lik sfrac fixed st false std false num_nodes (map fst gso) gso [] _ _ Hoo
+              (fun g Hg => in_map fst _ g Hg) Hout) as (Hkeep & Houteqs).
+  assert (Hor : out root = Some (repeat 1 G)).
+  { rewrite (Hkeep root Hnc). unfold out0.
+    assert (Hex : existsb (Nat.eqb root) nonfixed = true) by (now apply existsb_eqb_In).
+    rewrite Hex. cbn [find fst snd]. rewrite Nat.eqb_refl. reflexivity. }
+  pose proof (good_of G lik sfrac fixed priorv Hlik Hpr Hsf gs gso st Heqs t Hok Hpos Hook) as Hgood.
+  destruct (find_sub G lik priorv t (fun _ => 1) v) as [[s Ov]|] eqn:Hfs; [|now apply find_sub_total in Hfs].
+  destruct (outside_path G lik sfrac fixed priorv Hlik Hpr Hsf st std num_nodes out gso Houteqs
+              t (fun _ => 1) 1 (repeat 1 G) v s Ov Hgood Hor (repeat_length _ _)) as (Hgs & kappa' & ovv & Hov & Hlen & Hinv).
+  - intros r Hr. rewrite (nth_indep _ 0 1) by (now rewrite repeat_length). rewrite nth_repeat. lra.
+  - intros r Hr. rewrite (nth_indep _ 0 1) by (now rewrite repeat_length). rewrite nth_repeat. ring.
+  - exact Hfs.
+  - destruct (find_sub_in G lik priorv t _ v s Ov Hfs) as (_ & _ & es' & css & ->).
+    cbn [good] in Hgs. destruct Hgs as (_ & (HK & Hins) & _).
+    set (K := Kof (i_den LinR st) (Node es' v css)) in *.
+    exists (vcomb LinR (map (fun i => U lik priorv (Node es' v css) i / K) (seq 0 G)) ovv), (kappa' / K).
+    split; [|split].
+    + unfold posterior_grid. now rewrite Hins, Hov.
+    + rewrite (vcomb_length LinR), map_length, seq_length. toR. rewrite Hlen. apply Nat.min_id.
+    + intros i Hi. rewrite (vcomb_nth LinR) by (rewrite ?map_length, ?seq_length; toR; lia).
+      rewrite nth_map_seq by exact Hi. cbn [Nat.add s_comb LinR LinSpace mul RNum].
+      unfold t. rewrite (Z_is_brute_force G lik (restrict priorv v i)). fold t.
+      pose proof (ideal_identity G lik priorv t (fun _ => 1) v _ Ov i Hnd Hfs Hi) as Hid.
+      rewrite (sumR_map_ext _ (U lik (restrict priorv v i) t)) in Hid by (intros; ring).
+      rewrite Hid. toR. transitivity ((nth i ovv 0 * U lik priorv (Node es' v css) i) / K); [unfold Rdiv; ring|].
+      rewrite Hinv by exact Hi. unfold Rdiv. ring. Qed.
+
+(** normalised: whenever the posterior row is not identically zero it is the brute-force marginal *)
+Corollary posterior_exact_normalised : forall (G : nat) lik sfrac fixed priorv es es_out nonfixed std num_nodes root e cs st m out v,
+  (forall e i j, 0 <= lik e i j) -> (forall u x, In x (priorv u) -> 0 <= x) -> (forall e, sfrac e = 1) ->
+  let gs := groupby e_parent es in
+  let gso := groupby e_child es_out in
+  let t := Node e root cs in
+  inside_order fixed [] gs ->
+  inside_pass LinR G lik sfrac fixed priorv true es [(root, 1)] = Some (st, m) ->
+  tree_ok G fixed priorv gs t -> all_pos G lik priorv t ->
+  outside_order (map fst gso) [] gso -> ~ In root (map fst gso) -> In root nonfixed ->
+  outside_pass LinR G lik sfrac fixed st false std false num_nodes 0 es_out [(root, 1)] nonfixed = Some out ->
+  out_ok gso t -> NoDup (inodes t) -> In v (inodes t) ->
+  exists vec, posterior_grid LinR st out v = Some vec /\ length vec = G /\
+    (sumR vec <> 0 ->
+     forall i, (i < G)%nat ->
+       nth i vec 0 / sumR vec
+       = sumR (map (wt lik (restrict priorv v i) t) (labelings G t))
+         / sumR (map (fun k => sumR (map (wt lik (restrict priorv v k) t) (labelings G t))) (seq 0 G))).
+Proof. intros G lik sfrac fixed priorv es es_out nonfixed std num_nodes root e cs st m out v
+    Hlik Hpr Hsf gs gso t Hord Hrun Hok Hpos Hoo Hnc Hnf Hout Hook Hnd Hv.
+  destruct (posterior_exact G lik sfrac fixed priorv es es_out nonfixed std num_nodes root e cs st m out v
+              Hlik Hpr Hsf Hord Hrun Hok Hpos Hoo Hnc Hnf Hout Hook Hnd Hv) as (vec & kappa & Hpg & Hlen & Hval).
+  exists vec. split; [exact Hpg|]. split; [exact Hlen|]. intros Hnz i Hi.
+  set (N := fun k => sumR (map (wt lik (restrict priorv v k) t) (labelings G t))) in *.
+  assert (Hvec : vec = map (fun k => kappa * N k) (seq 0 G)).
+  { rewrite (list_as_map vec G Hlen). apply map_ext_in. intros k Hk. apply in_seq in Hk. apply Hval. lia. }
+  assert (Hsum : sumR vec = kappa * sumR (map N (seq 0 G))) by (rewrite Hvec; apply sumR_scale_l).
+  rewrite Hval by exact Hi. rewrite Hsum. fold (N i).
+  assert (kappa <> 0) by (intro E; apply Hnz; rewrite Hsum, E; ring).
+  assert (sumR (map N (seq 0 G)) <> 0) by (intro E; apply Hnz; rewrite Hsum, E; ring).
+  change (sumR (map (wt lik (restrict priorv v i) (Node e root cs)) (labelings G (Node e root cs)))) with (N i).
+  field. split; assumption. Qed.
+
+(** the numerators of one node sum to the normalising constant: sum_k O_v(k) U_v(k) = sum_r O(r) U_t(r) *)
+Lemma path_sum_identity G lik priorv : forall t O v s Ov,
+  find_sub G lik priorv t O v = Some (s, Ov) ->
+  sumR (map (fun k => Ov k * U lik priorv s k) (seq 0 G)) = sumR (map (fun r => O r * U lik priorv t r) (seq 0 G)).
+Proof. induction t as [e u|e u cs IH] using tree_ind'; intros O v s Ov H; cbn [find_sub] in H; [discriminate|].
+  destruct (Nat.eqb_spec u v) as [->|Hne]; [inversion H; reflexivity|].
+  destruct (first_child_spec _ _ _ _ H) as (b & c & a & Hsplit & Hf). cbn [app] in Hsplit. subst cs.
+  rewrite Forall_forall in IH.
+  assert (Hcin : In c (b ++ c :: a)) by (apply in_or_app; right; now left).
+  rewrite (IH c Hcin _ v s Ov Hf).
+  destruct c as [e' u'|e' u' cs']; [cbn [find_sub] in Hf; discriminate|].
+  symmetry.
+  rewrite (sumR_map_ext _ (fun r => sumR (map (fun j =>
+             (O r * pr priorv u r * prodR (map (fun x => M lik priorv x r) (b ++ a)) * lik e' r j)
+             * U lik priorv (Node e' u' cs') j) (seq 0 (r + 1)))) (seq 0 G)).
+  - rewrite (sum_swap_tri (fun r j => (O r * pr priorv u r * prodR (map (fun x => M lik priorv x r) (b ++ a)) * lik e' r j)
+                                      * U lik priorv (Node e' u' cs') j) G).
+    apply sumR_map_ext. intros j _. unfold Odown. cbn [t_eid]. now rewrite sumR_map_scale.
+  - intros r _. rewrite U_node. rewrite !map_app, !prodR_app. cbn [map]. unfold prodR at 2. cbn [fold_right].
+    fold (prodR (map (fun c => M lik priorv c r) a)). rewrite M_node.
+    set (f := fun j => U lik priorv (Node e' u' cs') j * lik e' r j).
+    transitivity ((O r * (pr priorv u r * (prodR (map (fun c => M lik priorv c r) b) * prodR (map (fun c => M lik priorv c r) a))))
+                  * sumR (map f (seq 0 (r + 1)))); [ring|].
+    rewrite <- sumR_scale_l. apply sumR_map_ext. intros j _. unfold f. ring. Qed.
+
+(** the numerators of node [v] over all indices add up to the normalising constant *)
+Lemma numerators_sum_to_Z G lik priorv e u cs v :
+  let t := Node e u cs in
+  NoDup (inodes t) -> In v (inodes t) ->
+  sumR (map (fun k => sumR (map (wt lik (restrict priorv v k) t) (labelings G t))) (seq 0 G))
+  = sumR (map (wt lik priorv t) (labelings G t)).
+Proof. intros t Hnd Hv. subst t. set (t := Node e u cs) in *.
+  destruct (find_sub G lik priorv t (fun _ => 1) v) as [[s Ov]|] eqn:Hfs; [|now apply find_sub_total in Hfs].
+  assert (HZ : forall p, sumR (map (wt lik p t) (labelings G t)) = sumR (map (U lik p t) (seq 0 G)))
+    by (intro p; apply Z_is_brute_force).
+  rewrite HZ.
+  rewrite (sumR_map_ext (U lik priorv t) (fun r => 1 * U lik priorv t r)) by (intros; ring).
+  rewrite <- (path_sum_identity G lik priorv t (fun _ => 1) v s Ov Hfs).
+  apply sumR_map_ext. intros k Hk. apply in_seq in Hk. rewrite HZ.
+  rewrite <- (ideal_identity G lik priorv t (fun _ => 1) v s Ov k Hnd Hfs) by lia.
+  apply sumR_map_ext. intros; ring. Qed.
+
+(** C10, normalised: whenever the posterior row is not identically zero, it is the exact marginal posterior
+    (numerator of "v at index i" over the sum of all assignment weights) *)
+Corollary posterior_exact_marginal : forall (G : nat) lik sfrac fixed priorv es es_out nonfixed std num_nodes root e cs st m out v,
+  (forall e i j, 0 <= lik e i j) -> (forall u x, In x (priorv u) -> 0 <= x) -> (forall e, sfrac e = 1) ->
+  let gs := groupby e_parent es in
+  let gso := groupby e_child es_out in
+  let t := Node e root cs in
+  inside_order fixed [] gs ->
+  inside_pass LinR G lik sfrac fixed priorv true es [(root, 1)] = Some (st, m) ->
+  tree_ok G fixed priorv gs t -> all_pos G lik priorv t ->
+  outside_order (map fst gso) [] gso -> ~ In root (map fst gso) -> In root nonfixed ->
+  outside_pass LinR G lik sfrac fixed st false std false num_nodes 0 es_out [(root, 1)] nonfixed = Some out ->
+  out_ok gso t -> NoDup (inodes t) -> In v (inodes t) ->
+  exists vec, posterior_grid LinR st out v = Some vec /\ length vec = G /\
+    (sumR vec <> 0 ->
+     forall i, (i < G)%nat ->
+       nth i vec 0 / sumR vec
+       = sumR (map (wt lik (restrict priorv v i) t) (labelings G t)) / sumR (map (wt lik priorv t) (labelings G t))).
+Proof. intros G lik sfrac fixed priorv es es_out nonfixed std num_nodes root e cs st m out v
+    Hlik Hpr Hsf gs gso t Hord Hrun Hok Hpos Hoo Hnc Hnf Hout Hook Hnd Hv.
+  destruct (posterior_exact_normalised G lik sfrac fixed priorv es es_out nonfixed std num_nodes root e cs st m out v
+              Hlik Hpr Hsf Hord Hrun Hok Hpos Hoo Hnc Hnf Hout Hook Hnd Hv) as (vec & Hpg & Hlen & Hn).
+  exists vec. split; [exact Hpg|]. split; [exact Hlen|]. intros Hnz i Hi.
+  rewrite (Hn Hnz i Hi). unfold t. now rewrite (numerators_sum_to_Z G lik priorv e root cs v Hnd Hv). Qed.
+
+(** the additional hypotheses of the posterior theorems on the worked example *)
+Definition ex10R_out : list edge := [(3, 4, 3); (2, 4, 2); (1, 3, 1); (0, 3, 0)]%nat.
+Lemma C10_real_example_out :
+  outside_order (map fst (groupby e_child ex10R_out)) [] (groupby e_child ex10R_out) /\
+  ~ In 4%nat (map fst (groupby e_child ex10R_out)) /\
+  out_ok (groupby e_child ex10R_out) ex10R_tree /\ NoDup (inodes ex10R_tree) /\ In 3%nat (inodes ex10R_tree).
+Proof. split; [apply outside_orderb_spec; reflexivity|]. split; [cbn; intuition lia|]. split; [cbn; tauto|].
+  split; [|cbn; auto]. cbn. constructor; [cbn; intuition lia|]. constructor; [intros []|constructor]. Qed.
